@@ -33,6 +33,11 @@ CLAIMS = {
  "C04": ("proof", "5 C04 / 9", "prune_to_minimal base cases full-domain (leaf costs 0; an already processed shared node reports its recorded total), copy_anode copies the cost, "
          "traverse_pruned_translation restores a shared node once (bounded), static fact that make_parse restores the one-parse flag unconditionally.",
          "The recursive cases of prune_to_minimal (sum over children, minimum over alternatives) exceed CBMC's reach in this sandbox (out of memory at 16 GB for one level with two children); composition over the DAG is a paper induction."),
+ "C16": ("proof", "5 C16 / 9", "Interface layer: the 14 member functions of class yaep are extracted from yaep.cpp to C on every run (staging rule R9, must-fire, bodies verbatim) and each is proved, full domain, to call exactly its C counterpart "
+         "exactly once on the wrapped object with its own arguments in order and to return its result, assigning nothing else (the C functions are replaced by recording contracts). "
+         "Everything below the interface is yaep.c itself compiled as C++ over the container classes: agreement there is a bounded native differential stand-in (both real libraries linked into one program and driven with the "
+         "same grammars, inputs, configurations and histories; codes, messages, callbacks, flags, trees and releases compared) plus the container twins; labelled bounded, not counted as proved.",
+         "The R9 rewriting is trusted; C++ containers are not under contract (CBMC's C++ front end); recovery together with all parses is left out of the differential runs (known finding F38)."),
  "C12": ("proof", "5 C12", "All built-in CBMC safety classes (bounds, pointer, signed overflow, division, conversions) of every function placed under contract for any property, plus the targeted anchors: "
          "message buffer (faithful yaep_error), code translation vector, parser-list size, description lexer.",
          "Only the functions listed in the evidence are covered; the Earley core, tree builder and bison automaton are named as unverified."),
@@ -46,7 +51,6 @@ NA = {
  "C08": "minimality over all simple recoveries: universal over alternative runs of the parser; no per-call contract",
  "C06": "only the argument-consistency clauses of build_pl would be provable, and only against an assumed contract of error_recovery; 'first token no sentence continues with' is a C01-class statement; not built",
  "C09": "equality of results across lookahead levels is a C01-class statement; the provable part (clamping) is carried by C15's API.set.set_lookahead; debug-level frame facts not built",
- "C16": "CBMC's C++ front end rejects yaep.cpp/objstack.h (class os) and contract syntax; forwarding methods and container twins not built",
  "C18": "growth rate of total work over input length for a grammar class; a contract bounds one call",
 }
 def main():
